@@ -350,3 +350,37 @@ package handlers
 //@   at return 4 assert ghost(w).started && ghost(w).status == 503 && pxCalls == old(pxCalls)
 //@   at return 5 assert ghost(w).started && ghost(w).status == 404 && pxCalls == old(pxCalls)
 //@   at return 7 assert ghost(w).started && ghost(w).status == 400 && pxCalls == old(pxCalls)
+
+// ---- C05: the generic proxy route. Failing before a backend was tried is answered 502 with an error body and the
+// engine is not called; an engine failure that left the response untouched is answered 502 as well.
+//@ func (a *Application) handleEndpointError
+//@   property C05
+//@   safety
+//@   requires a != nil && w != nil && pr != nil && pr.requestLogger != nil
+//@   modifies ghost(w).started, ghost(w).status, ghost(w).hdr[all]
+//@   ensures ghost(w).started && (!old(ghost(w).started) ==> ghost(w).status == 502)
+
+//@ func (a *Application) handleProxyError
+//@   property C05
+//@   safety
+//@   requires a != nil && w != nil
+//@   modifies ghost(w).started, ghost(w).status, ghost(w).hdr[all]
+//@   ensures old(len(ghost(w).hdr["Content-Type"])) == 0 ==> ghost(w).started && (!old(ghost(w).started) ==> ghost(w).status == 502)
+//@   ensures old(len(ghost(w).hdr["Content-Type"])) != 0 && old(ghost(w).hdr["Content-Type"][0]) != "" ==> ghost(w).started == old(ghost(w).started) && ghost(w).status == old(ghost(w).status)
+
+//@ func (a *Application) executeProxyRequest
+//@   property C05
+//@   safety
+//@   requires a != nil && a.proxyService != nil && w != nil && r != nil && r.URL != nil && pr != nil && pr.stats != nil
+//@   modifies gvar pxCalls, gvar pxEndpoints, gvar pxPath, gvar pxBody, object w, object pr.stats, ghost(w).started, ghost(w).status, ghost(w).hdr[all], ghost remaining, ghost backing, ports.RequestStats.RoutingDecision
+//@   ensures pxCalls == old(pxCalls) + 1 && pxEndpoints == endpoints && pxPath == old(r.URL.Path)
+
+//@ func (a *Application) proxyHandler
+//@   property C05
+//@   safety
+//@   requires a != nil && a.proxyService != nil && a.logger != nil && w != nil && r != nil && r.URL != nil
+//@   requires !ghost(w).started && len(ghost(w).hdr["Content-Type"]) == 0 && allocated(ghost(w).hdr)
+//@   modifies *
+//@   at return 1 assert ghost(w).started && ghost(w).status == 502 && pxCalls == old(pxCalls)
+//@   ensures pxCalls == old(pxCalls) ==> ghost(w).started && ghost(w).status == 502
+//@   ensures pxCalls == old(pxCalls) || pxCalls == old(pxCalls) + 1
